@@ -147,7 +147,7 @@ def g_pow(rng, pool, sim):
         n = rng.choice([2, 3, 2.0])
     else:
         a = _pick(rng, _positive(pool, 0.25, 4.0))
-        n = rng.choice([0.5, 1.5, -1, -0.5, 2.5, -2])
+        n = rng.choice([0.5, 1.5, -1, -0.5, 2.5, -2, 0, 0.0, 1, 1.0])      # (also the boundary exponents: x**0 is still an operation on x)
     return None if a is None else ([a.id], {"n": n})
 
 
